@@ -236,15 +236,38 @@ Proof.
 Qed.
 
 (* ---- Hpm.get_component_properties ---- *)
+Lemma good_send_message_e {A} P n r (k : list N -> prog A) (h : err -> prog A) :
+  (forall d, good P (k d)) -> (forall e, good P (h e)) ->
+  (forall cc d, cc <> 0 -> P cc -> k (cc :: d) = Raise (CCError cc)) ->
+  (forall cc, cc <> 0 -> P cc -> h (CCError cc) = Raise (CCError cc)) ->
+  good P (send_message_e n r k h).
+Proof.
+  intros Hk Hh Hf Hg. induction n as [| n IH]; cbn; [apply Hh |].
+  constructor.
+  - intros [d | e]; [apply Hk |]. destruct e; try apply Hh.
+    destruct (cc =? CC_NODE_BUSY); [apply IH | apply Hh].
+  - intros rp cc [[d ->] | [-> Hnb]] Hcc HP.
+    + apply Hf; assumption.
+    + apply N.eqb_neq in Hnb. rewrite Hnb. apply Hg; assumption.
+Qed.
+
 Lemma good_gcp mk parse ps : forall acc, good (fun cc => cc <> CC_INVALID_SELECTOR) (gcp_loop mk parse ps acc).
 Proof.
   induction ps as [| p r IH]; intros acc; cbn [gcp_loop]; [constructor |].
-  apply good_send_message.
+  assert (Hh : forall e, good (fun cc => cc <> CC_INVALID_SELECTOR)
+                 match e with
+                 | CCError cc => if cc =? CC_INVALID_SELECTOR then gcp_loop mk parse r acc else Raise (CCError cc)
+                 | _ => Raise e
+                 end).
+  { intros e. destruct e; try constructor. destruct (cc =? CC_INVALID_SELECTOR); [apply IH | constructor]. }
+  apply good_send_message_e.
   - intros d. destruct (check_cc d) as [body | e].
     + destruct (parse p body); [constructor | apply IH].
-    + destruct e; try constructor. destruct (cc =? CC_INVALID_SELECTOR); [apply IH | constructor].
+    + apply Hh.
+  - exact Hh.
   - intros cc d Hcc HP. rewrite carries_bytes_check by assumption.
     apply N.eqb_neq in HP. rewrite HP. reflexivity.
+  - intros cc Hcc HP. apply N.eqb_neq in HP. rewrite HP. reflexivity.
 Qed.
 
 Lemma gcp_fault mk parse rs k rp cc out reqs sl rest :
